@@ -243,7 +243,8 @@ _TOL_BOUNDS = dict(frame_width=64, frame_height=64, dwt_depth=5, dwt_depth_ho=5,
                    slice_prefix_bytes=80, slice_size_scaler=80, slice_bytes_numerator=1 << 15)
 _TOL_MAX_VALUES = 30000
 # strict mode: only what would make the *generator* itself spin (2 ** dwt_depth ...)
-_GEN_BOUNDS = dict(dwt_depth=12, dwt_depth_ho=12, frame_width=1 << 20, frame_height=1 << 20)
+# (slices_x / slices_y: the slice loops run slices_y x slices_x times even when one of the two is 0 and nothing is written)
+_GEN_BOUNDS = dict(dwt_depth=12, dwt_depth_ho=12, frame_width=1 << 20, frame_height=1 << 20, slices_x=4096, slices_y=4096)
 
 
 class _TooBig(Exception):
